@@ -378,8 +378,11 @@ def b_hash(ex, pos, kws, st):
     (v,) = pos
     z = ex.term(v, st)
     h = z3.Function("py_hash", Obj, M.I)
-    _trust(ex, "hash() is a total function of the (hashable) value")
-    return [(st, T(M.IntV(h(z)), "int"))]
+    hs = z3.Function("py_hash_seeded", M.I, Obj, M.I)
+    _trust(ex, "hash() is a total function of the (hashable) value -- and, except for numbers, None and tuples of such, "
+               "of the interpreter's hash seed (str / bytes hashing is randomised per process)")
+    stable = z3.Or(M.is_num(z), M.is_NoneV(z))
+    return [(st, T(M.IntV(z3.If(stable, h(z), hs(ex.hashseed, z))), "int"))]
 
 
 def b_print(ex, pos, kws, st):
@@ -749,6 +752,15 @@ def b_random_choice(ex, pos, kws, st):
 
 
 def b_random_seed(ex, pos, kws, st):
+    # C17: the stream that follows is a function of the value given here, so that value must not depend on the
+    # interpreter's hash seed, the clock or OS entropy (self-composition on the argument)
+    if pos and "C17" in getattr(ex, "current_props", ()):
+        from .contracts import noninterference
+        ex.seed_ctr = getattr(ex, "seed_ctr", 0) + 1
+        z = ex.term(pos[0], st)
+        ex.oblige(st, f"{ex.fname.split(':')[-1]}:seed-reproducible#{ex.seed_ctr}", "ensures",
+                  noninterference(ex, st, z, getattr(ex, "entry_len", 0), observational=False), ("C17",),
+                  text="the value handed to random.seed() is the same under a different hash seed / clock / OS entropy")
     return [(st, ex.const(None))]
 
 
